@@ -329,6 +329,8 @@ def run(ck):
     # row phase (26 setters, name table, site loop, aniso loop): theorems + source tie
     okr, infor = ck.lean_obligations("DS.Props.C07Row")
     tier_ok, tier_info = ck.source_tie("DS.Props.SrcCifRow", groups=("cifrow",))
+    # the operator reader (T18): `SymText.parseSymOp` (symop_text_roundtrip) IS the current source of getSymOp
+    ties_ok, ties_info = ck.source_tie("DS.Props.SrcSymOp", groups=("symop",))
     import diffpy.structure.spacegroups as S
     from diffpy.structure.parsers import getParser
     from diffpy.structure.spacegroups import GetSpaceGroup
@@ -451,6 +453,7 @@ def run(ck):
     ck.coverage["trusted_base"] += ["translate/tables.py", "harness/strata.py (generator only)", "CIF renderer in harness/c07.py"]
     ck.tie_verdict(tie_ok, tie_info, "p_cif.py leading_float")
     ck.tie_verdict(tier_ok, tier_info, "p_cif.py atom-site setters, name table, site loop and aniso loop")
+    ck.tie_verdict(ties_ok, ties_info, "p_cif.py getSymOp, _symop_constant, symvec and the two regular expressions")
     ck.assumptions += ["row phase: strings are ASCII (str.upper/lower/strip, \\d, [a-zA-Z] of the model); the number of a loop value is read by the harness with the CIF number grammar (the reader's own number reader is the cifnum stream)",
                        "row phase: the lattice attributes the Cartesian setters and the isotropic tensor use are read from a Lattice object built from the printed cell (lattice construction is C10's subject)",
                        "row phase: column-order independence holds only under DS.CifRow.RowShape; the four one-loop layouts outside it are the findings roworder:*"]
